@@ -222,6 +222,7 @@ func (c *FnCtx) verify() {
 		st.oldHeap = copyHeap(st.heap)
 	}
 	c.checkClosedType(st)
+	c.checkVisitsAll(frame)
 	// cover: precondition satisfiable
 	cov := &Oblig{Name: c.key + "#cover:entry", Kind: "cover", Goal: "false", PC: append([]string(nil), st.pc...), Fn: c, Pos: c.pos(fn.Pos())}
 	c.covers = append(c.covers, cov)
